@@ -9,7 +9,7 @@
    discrete ppf bisection (known finding). *)
 From Coq Require Import List ZArith QArith Bool String Reals.
 From Coquelicot Require Import Coquelicot.
-From GBS Require Import Model.PyStr Model.DistFam Model.Dist Src.SrcDist Proofs.DistP Proofs.FSReal.
+From GBS Require Import Model.PyStr Model.DistFam Model.Dist Src.SrcDist Proofs.DistP Proofs.FSReal Src.SrcDistLaw Proofs.DistLawSrcP.
 Import ListNotations.
 
 Theorem C11_fs_partial_sum : forall (a : Q) n, (~ 1 - a == 0)%Q ->
@@ -43,6 +43,30 @@ Theorem C11_names :
   dispatch (lit "log_normal(50, 1.1)") = Some FLogNormal /\ dispatch (lit "poisson(65)") = Some FPoisson.
 Proof. exact dispatch_names. Qed.
 Print Assumptions C11_names.
+
+(* tie T: the interval rule of prob_mw REGENERATED from every class of distribution.py (Src/SrcDistLaw.v; both cdf calls are checked to
+   carry the object's own parameters) is the difference of that law's cdf at the two ends kept by RememberAdd *)
+Theorem C11_interval_rule_is_source : forall (cdf : Q -> Q) previous value,
+  (interval_Distribution cdf previous value = cdf value - cdf previous /\
+   interval_FlorySchulz cdf previous value = cdf value - cdf previous /\
+   interval_SchulzZimm cdf previous value = cdf value - cdf previous /\
+   interval_LogNormal cdf previous value = cdf value - cdf previous)%Q.
+Proof. exact interval_rules_are_cdf_differences. Qed.
+Print Assumptions C11_interval_rule_is_source.
+
+(* hence, for every law and any cut points, the probabilities of consecutive intervals add up to cdf(last) - cdf(first): one coherent law *)
+Theorem C11_source_intervals_telescope : forall (cdf : Q -> Q) cuts m0,
+  (interval_sum interval_Distribution cdf m0 cuts == cdf (last cuts m0) - cdf m0 /\
+   interval_sum interval_FlorySchulz cdf m0 cuts == cdf (last cuts m0) - cdf m0 /\
+   interval_sum interval_SchulzZimm cdf m0 cuts == cdf (last cuts m0) - cdf m0 /\
+   interval_sum interval_LogNormal cdf m0 cuts == cdf (last cuts m0) - cdf m0)%Q.
+Proof. exact source_intervals_telescope. Qed.
+Print Assumptions C11_source_intervals_telescope.
+
+(* the Flory-Schulz mass function of the theorems above is the one written in the source *)
+Theorem C11_fs_mass_function_is_source : forall a k, fs_pmf_src a k = fs_pmf a k.
+Proof. exact fs_pmf_is_source. Qed.
+Print Assumptions C11_fs_mass_function_is_source.
 
 Example C11_example : (fs_cdf (1 # 2) 3 == 11 # 16)%Q.
 Proof. vm_compute. reflexivity. Qed.
